@@ -285,6 +285,8 @@ type SchemaOpts struct {
 	NoStruct           bool // soft types only
 	NoSoft             bool // struct-backed only
 	NoOwnInverse       bool
+	AllowTypeField     bool // fields may be named "type" (the library allows it; JSON:API does not)
+	JSONTagOptions     bool // some field names carry a json tag option ("a,omitempty"): the library uses the whole tag as the name
 }
 
 // DefaultSchemaOpts is used by most properties.
@@ -311,6 +313,16 @@ func CoherentSchema(t *rapid.T, o SchemaOpts) *SchemaSpec {
 	n := rapid.IntRange(o.MinTypes, o.MaxTypes).Draw(t, "ntypes")
 	typeNames := NamePool(t, n, "tname")
 	fieldPool := NamePool(t, 6, "fname")
+	if o.AllowTypeField {
+		fieldPool = append(fieldPool, "type")
+	}
+
+	// Names with a json tag option are only used for attributes (a comma in
+	// the inverse name of a relationship would change the arity of its api tag).
+	attrPool := fieldPool
+	if o.JSONTagOptions {
+		attrPool = append(append([]string{}, fieldPool...), fieldPool[0]+",omitempty", "opt,string")
+	}
 
 	specs := make([]TypeSpec, n)
 	used := make([]map[string]bool, n)
@@ -340,7 +352,7 @@ func CoherentSchema(t *rapid.T, o SchemaOpts) *SchemaSpec {
 
 		na := rapid.IntRange(0, o.MaxAttrs).Draw(t, "nattrs")
 		for j := 0; j < na; j++ {
-			name := rapid.SampledFrom(fieldPool).Draw(t, "aname")
+			name := rapid.SampledFrom(attrPool).Draw(t, "aname")
 			if used[i][name] {
 				continue
 			}
@@ -535,6 +547,16 @@ func IncoherentSchema(t *rapid.T) *SchemaSpec {
 
 		if fault("dangling", 6) {
 			rel.ToType = "ghost"
+		}
+
+		// The FromType of a one-way relationship is not constrained by Check
+		// (only relationships naming an inverse must be declared from their
+		// own type); hand-written literals often leave it empty or wrong.
+		if fault("onewayFromType", 5) {
+			rel.FromType = rapid.SampledFrom(append([]string{"ghost", ""}, typeNames...)).Draw(t, "owft")
+			if rapid.Bool().Draw(t, "owftSameAsTarget") {
+				rel.FromType = rel.ToType
+			}
 		}
 
 		if rapid.IntRange(0, 2).Draw(t, "twoway") > 0 {
